@@ -38,3 +38,19 @@ Example C17_example_reject :
   parse_with cfg_none (fun _ => None) (fun _ => true) jsonpath_grammar [36%N; 46%N; 97%N; 93%N] (* $.a] *)
   = ParseErr (ESyntax 3 RUnrecognized).
 Proof. vm_compute. reflexivity. Qed.
+
+(* From the path text (ErrText.v): a valid path of steps and existence filters followed by a symbol that can neither
+   continue it nor start a function, then anything, is rejected with "unrecognized input" at exactly the offset of
+   that symbol (the excerpt `near` is the input from that offset: Actions/ErrPos). *)
+From JP Require Import KeyDefs FiltChain ErrText.
+From Coq Require Import List NArith. Import ListNotations.
+Theorem C17_garbage_after_path_from_text : forall cfg parse_float regex_ok l c t,
+  forallb fstep_ok l = true -> closer c ->
+  parse_with cfg parse_float regex_ok jsonpath_grammar (fchain_path l ++ c :: t) =
+  ParseErr (ESyntax (1 + List.length (render_fsteps l)) RUnrecognized).
+Proof. exact garbage_after_path. Qed.
+Print Assumptions C17_garbage_after_path_from_text.
+
+Example C17_closers : closer 41%N /\ closer 93%N /\ closer 44%N /\ closer 63%N /\ closer 39%N /\ closer 126%N /\
+  fchain_path [FS (RPlain (SDot [97%N]))] ++ [41%N] = [36; 46; 97; 41]%N /\ forallb fstep_ok [FS (RPlain (SDot [97%N]))] = true.
+Proof. unfold closer. repeat split; try reflexivity; discriminate. Qed.
